@@ -45,6 +45,9 @@ pub fn boundary_inputs(tier: Tier) -> Vec<LzInput> {
     let _ = tier;
     v.push(LzInput::Spec(BytesSpec::Run { byte: 0x5A, len: 0xFF_FFFF }));
     v.push(LzInput::Spec(BytesSpec::Run { byte: 0x5A, len: 0xFF_FFFE }));
+    // ... and a run with an incompressible tail ending just below 16 MiB: the wrapper's own 24-bit quantity (a size estimate that
+    // exceeds the input length for such inputs) passes 2^24 while the input is still inside the statement's domain
+    v.push(LzInput::Spec(BytesSpec::Concat(vec![BytesSpec::Run { byte: 0, len: 0xFF_FFFF - 200 }, BytesSpec::Random { len: 190, seed: 190 }])));
     v
 }
 
@@ -55,7 +58,7 @@ impl Prop for C09 {
     fn rule() -> String {
         "Inputs: every byte string over {0,1} up to length 12 (quick) / 16 (thorough) and over {0,1,2} up to 8 / 10; the repository's test files; \
          boundary inputs built to contain a match of exactly 3,15..19,271..274,4095..4097 bytes and a repeat exactly 4094..4098 bytes back, long runs \
-         (0xFFFF..0x10001 bytes and 16 MiB-1, 16 MiB-2) and the empty input; random structured inputs as in C08 (<= 12 KiB quick / 100 KiB thorough). \
+         (0xFFFF..0x10001 bytes and 16 MiB-1, 16 MiB-2, and a 16 MiB-210 run followed by 190 random bytes) and the empty input; random structured inputs as in C08 (<= 12 KiB quick / 100 KiB thorough). \
          Oracle (non-empty input): Ok(out); out[0]=0x13, len>=8; an independent strict LZ11 reader accepts out[4..] (24-bit length = input length, \
          each reference in one of the three length forms with the length in that form's range, 1<=disp<=4096, disp<=produced, exact termination, nothing left over); \
          reference expansion, LZ13CompressionFormat::decompress and CompressionFormat::LZ13.decompress return the input. Bytes 1..4 of the wrapper are unconstrained. \
